@@ -10,9 +10,53 @@ func ContainsFold
     invariant safe_state: substrLen == len(substr) && -1 <= i
     decreases len(s) + (i == -1 ? 0 : 1)
 
+// SplitTrimmed (property C13).  With t = TrimSpace(str), the result lists
+// the non-empty trimmed pieces of strings.Split(t, sep) in order: piece j, if
+// its trimmed form is non-empty, sits at index keptBefore(j), the number of
+// kept pieces before it, and the length is the number of kept pieces.
+spec fn kept(s string, sep string, j int) bool = len(trimSpaceOf(splitPiece(s, sep, j))) > 0
+spec fn keptBefore(s string, sep string, j int) int =
+  j <= 0 ? 0 : keptBefore(s, sep, j - 1) + (kept(s, sep, j - 1) ? 1 : 0)
+  hidden
+
+lemma keptZero(s string, sep string)
+  reveal keptBefore
+  ensures keptBefore(s, sep, 0) == 0
+
+lemma keptStep(s string, sep string, j int)
+  requires j >= 1
+  reveal keptBefore
+  ensures keptBefore(s, sep, j) == keptBefore(s, sep, j - 1) + (kept(s, sep, j - 1) ? 1 : 0)
+
+lemma keptBounds(s string, sep string, j int)
+  requires j >= 0
+  induction on j
+  apply keptZero(s, sep)
+  apply keptStep(s, sep, j) when j >= 1
+  ensures 0 <= keptBefore(s, sep, j) && keptBefore(s, sep, j) <= j
+
 func SplitTrimmed
+  def t = trimSpaceOf(str)
+  apply keptZero(t, sep)
+  ensures non_nil: !isnil(strs)
+  ensures empty_input: len(t) == 0 ==> len(strs) == 0
+  ensures count: len(t) > 0 ==> len(strs) == keptBefore(t, sep, splitCount(t, sep))
+  ensures pieces_in_order: len(t) > 0 ==> (forall j in 0..splitCount(t, sep): kept(t, sep, j) ==>
+    keptBefore(t, sep, j) < len(strs) && sameView(strs[keptBefore(t, sep, j)], trimSpaceOf(splitPiece(t, sep, j))))
+  loop 0
+    invariant in_place: ref(strs) == ref(split) && off(strs) == 0 && cap(strs) == cap(split) && len(split) == splitCount(t, sep) && fresh(split) && off(split) == 0
+    invariant count_so_far: len(strs) == keptBefore(t, sep, rangeindex + 1) && len(strs) <= rangeindex + 1
+    invariant placed: forall j in 0..rangeindex + 1: kept(t, sep, j) ==>
+      keptBefore(t, sep, j) < len(strs) && sameView(strs[keptBefore(t, sep, j)], trimSpaceOf(splitPiece(t, sep, j)))
+    invariant unread_intact: forall j in rangeindex + 1..len(split): sameView(split[j], splitPiece(t, sep, j))
+    apply keptStep(t, sep, rangeindex + 1) when rangeindex + 1 >= 1
+    apply keptBounds(t, sep, rangeindex + 1) when rangeindex + 1 >= 0
   loop 1
-    invariant safe_index: 0 <= i
+    invariant safe_index: 0 <= i && len(strs) <= i
+    invariant in_place: ref(strs) == ref(split) && off(strs) == 0 && len(split) == splitCount(t, sep) && off(split) == 0 && fresh(split)
+    invariant count: len(strs) == keptBefore(t, sep, splitCount(t, sep))
+    invariant placed: forall j in 0..splitCount(t, sep): kept(t, sep, j) ==>
+      keptBefore(t, sep, j) < len(strs) && sameView(strs[keptBefore(t, sep, j)], trimSpaceOf(splitPiece(t, sep, j)))
     decreases len(split) - i
 
 func WriteToBuilder
